@@ -8,7 +8,7 @@ B3 BED12 arithmetic identities of BEDPrinter
 import ast
 import re
 
-from ..engine.program import AnalysisError, dotted, src, walk_no_nested, call_name
+from ..engine.program import AnalysisError, dotted, src, walk_no_nested, call_name, enclosing_stmt
 from ..engine import flow, symexec
 from ..engine.dataflow import local_defs
 from ..engine.linform import linform, fmt
@@ -247,10 +247,15 @@ def b1(prog, ctx, flags):
     ctx.floor("B1", "sinks of corrected coordinates in process_events", sinks, 9)
     # the returned pair is exactly (corrected_read_region, new_introns)
     rets = [r for r in walk_no_nested(pe) if isinstance(r, ast.Return)]
-    if len(rets) != 1 or src(rets[0].value) != "(corrected_read_region, new_introns)":
+    if any(isinstance(r.value, ast.Call) for r in rets) or not rets:
+        ctx.undecided("B1", pe, pe._qualname, "process_events hands its result over to another function (%s): the sinks of corrected "
+                      "coordinates are not in this function" % "; ".join(src(r)[:60] for r in rets))
+    elif len(rets) != 1 or src(rets[0].value) != "(corrected_read_region, new_introns)":
         ctx.fail("B1", pe, pe._qualname, "return", "process_events must return (corrected_read_region, new_introns) only")
     init = [d for d in defs.get("corrected_read_region", []) if src(d[1]) == "read_region"]
-    if not init:
+    if not defs.get("corrected_read_region"):
+        ctx.undecided("B1", pe, pe._qualname, "corrected_read_region is not defined in process_events")
+    elif not init:
         ctx.fail("B1", pe, pe._qualname, "corrected_read_region", "corrected_read_region is not initialised from read_region")
     # correct_assigned_read rebuilds exons only from that pair; early exits return the read's own exons
     ca = prog.func(EC, "ExonCorrector.correct_assigned_read")
@@ -487,8 +492,9 @@ def b6(prog, ctx):
         blk = st._parent
         siblings = getattr(blk, "body", []) if st in getattr(blk, "body", []) else getattr(blk, "orelse", [])
         def _moves(x):
-            if isinstance(x, ast.Assign) and dotted(x.targets[0]) == "corrected_read_region" and "isoform_region[" in src(x.value):
-                return True
+            if isinstance(x, ast.Assign) and (dotted(x.targets[0]) or "").startswith("corrected_") and "isoform_region[" in src(x.value) \
+                    and not (dotted(x.targets[0]) or "").startswith("corrected_intron"):
+                return True        # corrected_read_region = (.., isoform_region[1]) or its start / end kept as two scalars
             if isinstance(x, ast.If) and x.orelse:
                 return any(_moves(y) for y in x.body) and any(_moves(y) for y in x.orelse)
             return False
@@ -498,7 +504,9 @@ def b6(prog, ctx):
                                                             ("contains_well_inside", "contains", "contains_approx")
                                                             and c.args and src(c.args[0]) in ("read_region", "corrected_read_region")
                                                             and "isoform_introns[" in src(c.args[1]) for c in ast.walk(g.test))]
-        keyed = [g for g in guards if g.polarity and re.search(r"-\s*i\s*-\s*1 in event_map", src(g.test))]
+        keyed = [g for g in guards if g.polarity and (re.search(r"-\s*\w+\s*-\s*1 in event_map\w*$", src(g.test)) or
+                                                     (isinstance(g.test, ast.Compare) and isinstance(g.test.ops[0], ast.In)
+                                                      and "retention" in src(g.test.comparators[0])))]
         if moves_region:
             ctx.ok("B6", "%s:%d" % (EC, st.lineno), "annotated intron added together with moving the read region end to the isoform's (%s)" % src(moves_region[0])[:60])
         elif contain:
@@ -574,7 +582,60 @@ def b7(prog, ctx):
     ctx.floor("B7", "paths storing a replacement intron pair", n, 2)
 
 
+def b8(prog, ctx):
+    """The corrected intron chain is in coordinate order because process_events assembles it while walking the read's introns from left to
+    right (B2/B3/B6 are decided there).  Whoever extends the chain it returned - correct_misalignments is its only caller - leaves that
+    argument behind: match events arrive in the order the comparators emitted them (right-hand terminal events from the last intron
+    backwards), not in coordinate order.  The chain returned by process_events is handed on unchanged, or re-sorted."""
+    cm = prog.func(EC, "ExonCorrector.correct_misalignments")
+    calls = [c for c in walk_no_nested(cm) if isinstance(c, ast.Call) and (call_name(c) or "").endswith(".process_events")]
+    if len(calls) != 1:
+        ctx.undecided("B8", cm, cm._qualname, "correct_misalignments does not call process_events exactly once (%d calls)" % len(calls))
+        return
+    st = enclosing_stmt(calls[0])
+    if isinstance(st, ast.Return) and st.value is calls[0]:
+        ctx.ok("B8", "%s:%d" % (EC, st.lineno), "the result of process_events is returned as it is")
+        ctx.floor("B8", "hand-over of the corrected chain", 1, 1)
+        return
+    names = set()
+    if isinstance(st, ast.Assign):
+        names = {x.id for t in st.targets for x in ast.walk(t) if isinstance(x, ast.Name)}
+    if not names:
+        ctx.undecided("B8", st, cm._qualname, "the result of process_events is neither returned nor bound to locals")
+        return
+    changed = []
+    for x in walk_no_nested(cm):
+        if x is st or getattr(x, "lineno", 0) <= getattr(st, "end_lineno", st.lineno):
+            continue
+        if isinstance(x, (ast.Assign, ast.AugAssign)):
+            tg = x.targets if isinstance(x, ast.Assign) else [x.target]
+            if any(isinstance(t, ast.Name) and t.id in names for t in tg) and not (
+                    isinstance(x, ast.Assign) and isinstance(x.value, ast.Call) and call_name(x.value) == "sorted"):
+                # rebinding the region pair is not a change of the chain: only list-valued rebinding counts
+                if isinstance(x, ast.AugAssign) or isinstance(x.value, (ast.BinOp, ast.List, ast.ListComp)) and any(
+                        isinstance(y, ast.Name) and y.id in names for y in ast.walk(x.value)):
+                    if isinstance(x, ast.AugAssign) or isinstance(x.value, ast.BinOp) and isinstance(x.value.op, ast.Add) and not isinstance(x.value.left, ast.Tuple) \
+                            and not isinstance(x.value.right, ast.Tuple):
+                        changed.append(x)
+        if isinstance(x, ast.Call) and isinstance(x.func, ast.Attribute) and isinstance(x.func.value, ast.Name) and x.func.value.id in names \
+                and x.func.attr in ("append", "extend", "insert"):
+            changed.append(x)
+    resorted = any(isinstance(x, ast.Call) and call_name(x) == "sorted" and any(isinstance(y, ast.Name) and y.id in names for y in ast.walk(x))
+                   for x in walk_no_nested(cm)) or any(isinstance(x, ast.Call) and isinstance(x.func, ast.Attribute) and x.func.attr == "sort"
+                                                       and isinstance(x.func.value, ast.Name) and x.func.value.id in names for x in walk_no_nested(cm))
+    if changed and not resorted:
+        ctx.fail("B8", changed[0], cm._qualname, src(changed[0])[:90], "the intron chain returned by process_events is extended here, outside the "
+                 "left-to-right walk that keeps it in coordinate order, and is not sorted afterwards: introns attached in the order their "
+                 "match events arrive can be out of order, which yields overlapping / negative-length blocks in the corrected BED record")
+    else:
+        ctx.ok("B8", "%s:%d" % (EC, st.lineno), "the chain returned by process_events is handed on %s" % ("re-sorted" if changed else "unchanged"))
+    ctx.floor("B8", "hand-over of the corrected chain", 1, 1)
+
+
 def run(prog, ctx):
+    ctx.rule("B8", "correct_misalignments hands the (region, intron chain) pair of process_events on unchanged; if the chain is extended after "
+                   "the call (concatenation, append, extend, insert) it is sorted before it is returned")
+    b8(prog, ctx)
     ctx.rule("B6", "in process_events every insertion of isoform_introns[...] into new_introns either moves corrected_read_region to the "
                    "isoform region end in the same branch, or is dominated by contains*(read_region, <those introns' span>), or is the "
                    "-i-1 keyed micro-intron case")
